@@ -64,8 +64,10 @@ class lib:
     that never passed through a pulsarbat frame is a harness bug and propagates unchanged.
     """
 
-    def __init__(self, what, allow=()):
-        self.what, self.allow = what, allow
+    def __init__(self, what, allow=(), any_exception=False):
+        # any_exception: the body consists of nothing but the call the property speaks of (e.g. np.asarray(signal, dtype)),
+        # so every exception is the library's refusal -- also one raised while binding arguments, which has no library frame
+        self.what, self.allow, self.any = what, allow, any_exception
 
     def __enter__(self):
         return self
@@ -77,7 +79,7 @@ class lib:
             return False
         if self.allow and issubclass(et, self.allow):
             return False
-        if _has_lib_frame(tb):
+        if self.any or _has_lib_frame(tb):
             last = traceback.format_exception(et, ev, tb)[-1].strip()
             where = traceback.extract_tb(tb)[-1]
             raise Violation(
